@@ -24,6 +24,7 @@ import (
 
 type c10Proof struct {
 	Total int64    `json:"total"`
+	Big   int64    `json:"big"` // the stated leaf count is Total + Big<<32
 	Index int64    `json:"index"`
 	Leaf  string   `json:"leaf"`
 	Aunts []string `json:"aunts"`
@@ -169,7 +170,7 @@ func (nm *c10Names) concProof(p c10Proof) (*merkle.Proof, error) {
 	if err != nil {
 		return nil, err
 	}
-	out := &merkle.Proof{Total: p.Total, Index: p.Index, LeafHash: lh, Aunts: [][]byte{}}
+	out := &merkle.Proof{Total: p.Total + p.Big<<32, Index: p.Index, LeafHash: lh, Aunts: [][]byte{}}
 	for _, a := range p.Aunts {
 		h, err := nm.hash(a)
 		if err != nil {
@@ -182,6 +183,9 @@ func (nm *c10Names) concProof(p c10Proof) (*merkle.Proof, error) {
 
 func (nm *c10Names) absProof(p *merkle.Proof) c10Proof {
 	out := c10Proof{Total: p.Total, Index: p.Index, Leaf: nm.nameOfHash(p.LeafHash), Aunts: []string{}}
+	if p.Total >= 1<<32 {
+		out.Total, out.Big = p.Total&(1<<32-1), p.Total>>32
+	}
 	for _, a := range p.Aunts {
 		out.Aunts = append(out.Aunts, nm.nameOfHash(a))
 	}
